@@ -244,7 +244,14 @@ fn build(c: &Case) -> Built {
                         // the payload ends `97 7`: make its last element an unassigned tag
                         let n = bad.len();
                         bad[n - 2] = 0;
-                        stream.extend_from_slice(&frame4(&bad));
+                        // one time in two the refused message travels as a fragmented message of one fragment (a different receive path)
+                        if seed & 0x400 != 0 {
+                            let fr = fragment(&bad, 700_000 + *seed as u64, &[]);
+                            debug_assert_eq!(fr.len(), 1);
+                            stream.extend_from_slice(&frame4(&fr[0]));
+                        } else {
+                            stream.extend_from_slice(&frame4(&bad));
+                        }
                         // the peer does not know the frame was refused: it now refers to the entries it has just sent
                         let (good, refs) = sender_encode(&control, Some(&payload), &mut cache, &mut slots(*seed), &mut Canonical);
                         debug_assert!(refs.iter().all(|r| !r.new));
